@@ -4,6 +4,7 @@ import FP.Proofs.NodeExpandStr
 import FP.Proofs.NodeExpandGraph
 import FP.Proofs.NodeExpandKFD
 import FP.Proofs.NodeExpandModes
+import FP.Proofs.WalkCoreExample
 /-!
 # C11 — node-weighted solving equals solving the explicitly node-expanded instance
 
@@ -29,12 +30,13 @@ end in `.0` / `.1`):
 * the same equality for the node branches of `kLeastAbsErrors`, `kMinPathError` (with additional starts / ends,
   `error_scaling`, `path_length_ranges` / `path_length_factors`, `encode_edge_position`) and of
   `kPathCover(cover_type="node")` (model: `FP/Model/NodeExpandModes.lean`):
-  `node_mode_is_edge_mode_on_expansion_klae`, `…_kmpe`, `…_kcover`. For `kPathCover` the equality needs a
-  hypothesis: the class builds its `NodeExpandedDiGraph` *without* `node_length_attr`, so the copy `(u.1, v.0)` of an
-  original edge that lacks the length attribute counts with length 1 in `subpath_constraints_coverage_length`
-  constraints, where the expansion of the other classes gives it length 0; `kcover_node_mode_length_witness` is a
-  concrete input on which the two LPs differ (replayed on the real classes by the check: `kPathCover(k=1)` is
-  infeasible in node mode and feasible on the expansion, `MinPathCover` answers 2 instead of 1).
+  `node_mode_is_edge_mode_on_expansion_klae`, `…_kmpe`, `…_kcover`, all three unconditional. Until fix 65014a7
+  `kPathCover` / `MinPathCover` built their `NodeExpandedDiGraph` *without* `node_length_attr`, so the copy
+  `(u.1, v.0)` of an original edge that lacks the length attribute counted with length 1 in
+  `subpath_constraints_coverage_length` constraints, where the expansion of the other classes gives it length 0
+  (former finding C11-kpathcover-node-length-default); `kcover_node_mode_length_regression` is the regression theorem
+  on the input of that defect (node LP = edge LP on the expansion, feasible for `k = 1`),
+  `kcover_former_reading_differs` records what the LP was before the fix.
 
 The candidate falsifiers of the design notes are settled as follows: dotted names do **not** break
 condensing (`condense_expand`, `dotted_names_condense_witness`); the other candidates
@@ -198,20 +200,25 @@ theorem node_mode_is_edge_mode_on_expansion_kmpe (inp : NodeMpeInput) (lp : LP) 
   NX.nxm_kmpe_node_eq inp lp hc hef h
 
 /-- **kPathCover(cover_type="node").** The node branch equals the edge branch on the explicit expansion (every
-node an edge to be covered unless the caller ignores it, all original edges ignored) **provided** the length
-attribute as the class reads it (`coverLengths`: copied attributes, default 1 — the class does not pass
-`node_length_attr`) and as the expansion of the property text defines it (`expandLengths`: an original edge
-without the attribute has length 0) agree on every edge of every expanded constraint, or
-`subpath_constraints_coverage_length` is not set. Without the hypothesis the equality fails
-(`kcover_node_mode_length_witness`). -/
+node an edge to be covered unless the caller ignores it, all original edges ignored; the length attribute as
+`NodeExpandedDiGraph(node_length_attr=length_attr)` defines it). Unconditional since fix 65014a7 (before it the
+class did not pass `node_length_attr` and the equality needed the hypothesis of `kcover_former_lp_eq`). -/
 theorem node_mode_is_edge_mode_on_expansion_kcover (inp : NodeModeInput) (lp : LP) (hc : Closed inp.nf.ng.g)
+    (h : kcoverNodeLP inp = .ok lp) : lp = kcoverLP (expandCoverInput inp) :=
+  NX.nxm_kcover_node_eq inp lp hc h
+
+/-- the LP the class built before fix 65014a7 — length attribute read as `coverLengths` (copied attributes,
+default 1 on attribute-less edge copies) — equals the present one when the two readings agree on every edge of
+every expanded constraint or `subpath_constraints_coverage_length` is not set -/
+theorem kcover_former_lp_eq (inp : NodeModeInput)
     (hlen : inp.nf.coverageLength = none ∨
       ∀ con ∈ specConstraints inp.nf.constraints, ∀ e ∈ con,
-        lenAt (coverLengths inp.nf.ng) e = lenAt (expandLengths inp.nf.ng) e)
-    (h : kcoverNodeLP inp = .ok lp) : lp = kcoverLP (expandCoverInput inp) :=
-  NX.nxm_kcover_node_eq inp lp hc hlen h
+        lenAt (coverLengths inp.nf.ng) e = lenAt (expandLengths inp.nf.ng) e) :
+    kcoverLP (nxmTranslated inp (coverNG inp.nf.ng) (coverLengths inp.nf.ng) false).fi
+      = kcoverLP (nxmTranslated inp (coverNG inp.nf.ng) (expandLengths inp.nf.ng) false).fi :=
+  NX.nxm_kcover_former_eq inp hlen
 
-/-- the hypothesis holds when the constraints are given as lists of nodes … -/
+/-- the former and the present reading agree when the constraints are given as lists of nodes … -/
 theorem kcover_lengths_agree_on_node_constraints (ng : NodeGraph) (l : List (List Node)) :
     ∀ con ∈ specConstraints (.nodes l), ∀ e ∈ con,
       lenAt (coverLengths ng) e = lenAt (expandLengths ng) e :=
@@ -363,28 +370,48 @@ theorem exCover_closed : Closed exCover.nf.ng.g := by
 /-- the coefficients of all rows of an LP (a decidable fingerprint) -/
 def rowCoeffs (lp : LP) : List (List Rat) := lp.rows.map fun r => r.terms.map (·.1)
 
-/-- **the hypothesis of `node_mode_is_edge_mode_on_expansion_kcover` cannot be dropped**: on `exCover` the node
-branch of `kPathCover` and the edge branch on the explicit expansion build different LPs — the constraint
-`(a.0,a.1), (a.1,b.0), (b.0,b.1)` has lengths `1, 1, 1` (threshold `9/4`) in the node branch and `1, 0, 1`
-(threshold `3/2`) on the expansion. The path `a, c, b` covers every node and satisfies the latter, not the
-former. -/
-theorem kcover_node_mode_length_witness :
-    ∃ lp, kcoverNodeLP exCover = .ok lp ∧ lp ≠ kcoverLP (expandCoverInput exCover) ∧
-      lenAt (coverLengths exCover.nf.ng) ("a.1", "b.0") = 1 ∧
+/-- the path `a, c, b` on the augmented expansion, `r(0,0) = 1` -/
+def exCoverAsg : Asg := fun v =>
+  if v ∈ [edgeVar ("source", "a.0") 0, edgeVar ("a.0", "a.1") 0, edgeVar ("a.1", "c.0") 0, edgeVar ("c.0", "c.1") 0,
+      edgeVar ("c.1", "b.0") 0, edgeVar ("b.0", "b.1") 0, edgeVar ("b.1", "sink") 0, rVar 0 0] then 1 else 0
+
+/-- **regression for fix 65014a7** (former finding C11-kpathcover-node-length-default), on the input of the
+defect: the node branch of `kPathCover` builds the LP of the edge branch on the explicit expansion — the constraint
+`(a.0,a.1), (a.1,b.0), (b.0,b.1)` has lengths `1, 0, 1`, threshold `3/2` — and that LP is feasible for `k = 1`: the
+path `a, c, b` covers every node and carries length 2 of the constraint. -/
+theorem kcover_node_mode_length_regression :
+    ∃ lp, kcoverNodeLP exCover = .ok lp ∧ lp = kcoverLP (expandCoverInput exCover) ∧ Sat exCoverAsg lp ∧
       lenAt (expandLengths exCover.nf.ng) ("a.1", "b.0") = 0 := by
   have hok : (kcoverNodeLP exCover).toBool = true := by decide +kernel
   cases h : kcoverNodeLP exCover with
   | error e => rw [h] at hok; cases hok
   | ok lp =>
-    refine ⟨lp, rfl, ?_, by decide +kernel, by decide +kernel⟩
-    intro heq
-    have h1 : (kcoverNodeLP exCover).toOption.map rowCoeffs
-        = some (rowCoeffs (kcoverLP (expandCoverInput exCover))) := by
-      rw [h, ← heq]; rfl
+    have heq := node_mode_is_edge_mode_on_expansion_kcover exCover lp exCover_closed h
+    refine ⟨lp, rfl, heq, ?_, by decide +kernel⟩
+    rw [heq]
+    exact FP.WalkCoreExample.sat_of_check _ _ (by decide +kernel) (by decide +kernel)
+
+/-- **what the defect was**: with the former reading of the length attribute (`coverLengths`: the copy `(a.1, b.0)`
+of the attribute-less edge `(a, b)` has length 1) the LP of the node branch on `exCover` differs from the LP on the
+explicit expansion — lengths `1, 1, 1`, threshold `9/4`, which the path `a, c, b` (length 2) misses: `k = 1` was
+infeasible and `MinPathCover` answered 2. -/
+theorem kcover_former_reading_differs :
+    kcoverLP (nxmTranslated exCover (coverNG exCover.nf.ng) (coverLengths exCover.nf.ng) false).fi
+        ≠ kcoverLP (expandCoverInput exCover) ∧
+      lenAt (coverLengths exCover.nf.ng) ("a.1", "b.0") = 1 ∧
+      ¬ Sat exCoverAsg (kcoverLP (nxmTranslated exCover (coverNG exCover.nf.ng) (coverLengths exCover.nf.ng) false).fi) := by
+  refine ⟨?_, by decide +kernel, ?_⟩
+  · intro heq
+    have h1 : rowCoeffs (kcoverLP (nxmTranslated exCover (coverNG exCover.nf.ng) (coverLengths exCover.nf.ng) false).fi)
+        = rowCoeffs (kcoverLP (expandCoverInput exCover)) := by rw [heq]
     revert h1
     decide +kernel
+  · intro hsat
+    have := NX.nxm_rowOk_of_sat _ _ hsat
+    revert this
+    decide +kernel
 
-/-- with the constraint given as the node list `[a, b]` the hypothesis holds and the LPs coincide -/
+/-- with the constraint given as the node list `[a, b]` the LPs coincide as well -/
 example : ∃ lp, kcoverNodeLP { exCover with nf := { exCover.nf with constraints := .nodes [["a", "b"]] } } = .ok lp ∧
     lp = kcoverLP (expandCoverInput { exCover with nf := { exCover.nf with constraints := .nodes [["a", "b"]] } }) := by
   have hok : (kcoverNodeLP { exCover with nf := { exCover.nf with constraints := .nodes [["a", "b"]] } }).toBool
@@ -392,7 +419,6 @@ example : ∃ lp, kcoverNodeLP { exCover with nf := { exCover.nf with constraint
   cases h : kcoverNodeLP { exCover with nf := { exCover.nf with constraints := .nodes [["a", "b"]] } } with
   | error e => rw [h] at hok; cases hok
   | ok lp =>
-    exact ⟨lp, rfl, node_mode_is_edge_mode_on_expansion_kcover _ lp exCover_closed
-      (Or.inr (kcover_lengths_agree_on_node_constraints _ _)) h⟩
+    exact ⟨lp, rfl, node_mode_is_edge_mode_on_expansion_kcover _ lp exCover_closed h⟩
 
 end FP.Props.C11
